@@ -53,7 +53,7 @@ func comment(r *rand.Rand) string {
 	case 0:
 		return "/*" + body + "*/"
 	case 1:
-		return "/**" + body + "**/"
+		return "/** " + body + " **/"
 	case 2:
 		return "/**/"
 	}
